@@ -120,7 +120,13 @@ def gen_template(r):
         if r.random() < 0.8:
             statics.append([('lit', ''.join(r.choice('abcdefgh') for _ in range(r.randint(1, 4))) + r.choice(['', '', '.html', '.txt']))])
         else:
-            statics.append([('lit', r.choice('pq')), ('var', r.choice(['jobname', 'num']), r.choice([None, 2]), True)])
+            # a static name with a variable: bare or braced, with or without a width, first / last / in the middle of the name
+            piece = [('var', r.choice(['jobname', 'num']), r.choice([None, None, 2]), r.random() < 0.5)]
+            if r.random() < 0.7:
+                piece.insert(0, ('lit', r.choice(['p', 'q', 'p-'])))
+            if r.random() < 0.3:
+                piece.append(('lit', r.choice(['-t', '.html', '.x'])))
+            statics.append(piece)
     nalt = r.choice([1, 2, 2, 3, 3, 4])
     pj = r.random() < 0.15
     alts = [gen_piece(r, exclude=('jobname',) if pj else ()) for _ in range(nalt)]
